@@ -346,8 +346,10 @@ def write_evidence(plan, out, tier, wall, seed, violations, known_hit):
         "wall_s": round(wall, 2),
         "violations": violations,
     }
-    os.makedirs(os.path.join(VERIF, "evidence"), exist_ok=True)
-    with open(os.path.join(VERIF, "evidence", prop + ".json"), "w") as f:
+    # runs against a scratch copy (VERIF_REPO set) never touch the committed evidence
+    evdir = os.path.join(VERIF, "evidence") if REPO == "/repo" else os.path.join(VERIF, "build", "scratch_evidence")
+    os.makedirs(evdir, exist_ok=True)
+    with open(os.path.join(evdir, prop + ".json"), "w") as f:
         json.dump(ev, f, indent=1)
 
 
@@ -396,7 +398,7 @@ def main():
     rc = 0
     for name in sorted(set(known_hit)):
         log("KNOWN-FINDING: property=%s %s :: %s" % (prop, name, known_names[name]["what"]))
-    rdir = os.path.join(VERIF, "replays", prop)
+    rdir = os.path.join(VERIF, "replays" if REPO == "/repo" else "build/scratch_replays", prop)
     if new_fail:
         os.makedirs(rdir, exist_ok=True)
     for f in new_fail:
